@@ -267,8 +267,30 @@ def deep_clone_from_root(rec):
                           {"deep": True, "summary": f"a sum of {terms} terms: clone_from_root via its deepest node (depth {depth}, tree of {total} nodes) returned a node at depth {d2} in a tree of {n2} nodes"})
 
 
-def drive_tree(rec, root, rng, expr=True):
+def _path_in(root, node):
+    """path of `node` below `root` following the child links (None when it is not reachable)"""
+    stack = [(root, [])]
+    while stack:
+        x, p = stack.pop()
+        if x is node:
+            return p
+        if x.right is not None:
+            stack.append((x.right, p + ["R"]))
+        if x.left is not None:
+            stack.append((x.left, p + ["L"]))
+    return None
+
+
+def drive_tree(rec, root, rng, expr=True, whole=False):
+    """whole=True (trees that came out of the parser or of a rule): every node reachable from `root` belongs to THAT
+    tree, so clone_from_root via it must return its copy inside a complete copy of `root`'s tree -- decided here by
+    the tree the caller holds, not by the node's own idea of its root"""
+    import gc
+
+    if whole:
+        gc.collect()        # whatever the rewrite dropped is really gone by now
     nodes = S.nodes_preorder(root)
+    whole_shadow = S.shadow(root) if whole else None
     # clone of the whole tree and of a few subtrees
     try:
         c = root.clone()
@@ -284,9 +306,22 @@ def drive_tree(rec, root, rng, expr=True):
         # clone_from_root via every node
         for n in nodes if len(nodes) <= 40 else rng.sample(nodes, 40):
             try:
-                n.clone_from_root()
+                r_ = n.clone_from_root()
             except Exception:
-                pass
+                continue
+            if whole_shadow is not None:
+                rec.ev()
+                rec.arm("clone_from_root:inside-the-whole-tree-the-caller-holds")
+                try:
+                    top = S.root_of(r_)
+                    ok = S.shadow(top) == whole_shadow and S.path_from_root(r_) == _path_in(root, n)
+                except Exception:
+                    ok = True
+                if not ok:
+                    rec.violation("C13", "clone_from_root/position", "clone_from_root does not return the copy of the node it was called on",
+                                  {"tree": S.to_json(S.shadow(root)), "whole": True,
+                                   "summary": f"'{S.text_of(root)}': clone_from_root via the node '{S.text_of(n)}' returned a node inside '{S.text_of(top)}', not inside a copy of the whole tree"})
+                    break
         # independence both ways (on throw-away copies)
         a = root.clone()
         b = a.clone()
@@ -414,12 +449,12 @@ def run(rec, cfg):
         if S.size(S.shadow(root)) > 120:
             continue
         rec.arm("start:parsed")
-        drive_tree(rec, root, rng)
+        drive_tree(rec, root, rng, whole=True)
         if rng.random() < 0.3 and not D.too_big(S.shadow(root)):
             for label, idx, new_root in D.apply_everywhere(rec, root, rules, rng, cap=1)[:3]:
                 if new_root is not None and not D.too_big(S.shadow(new_root)):
                     rec.arm("start:rewritten")
-                    drive_tree(rec, new_root, rng)
+                    drive_tree(rec, new_root, rng, whole=True)
         if rng.random() < 0.01:
             rec.sample({"text": text[:100]})
 
